@@ -88,12 +88,15 @@ Proof.
   destruct (N.of_nat (S i)) as [|p]; reflexivity.
 Qed.
 
-Lemma check_codebook_sound k : (1 <= k)%nat -> check_codebook k = true ->
-  exists m, fst (fst (run_build_code k)) = Ok (None, m) /\
-            tables_are k m (snd (fst (run_build_code k))) (snd (run_build_code k)) (build_code k).
+(* stated for an arbitrary outcome [rb] so that Qed never has to look inside the interpreter *)
+Lemma check_sound_gen k (rb : res (option (@val Z) * @mem Z) * positive * positive) : (1 <= k)%nat ->
+  match rb with
+  | (Ok (None, m), bo, bi) => all_pow k (entry_ok k m bo bi) 0
+  | _ => false
+  end = true ->
+  exists m, fst (fst rb) = Ok (None, m) /\ tables_are k m (snd (fst rb)) (snd rb) (build_code k).
 Proof.
-  intros Hk H. unfold check_codebook in H.
-  destruct (run_build_code k) as [[r bo] bi]. cbn [fst snd].
+  intros Hk H. destruct rb as [[r bo] bi]. cbn [fst snd].
   destruct r as [[[v|] m]| | | |]; try discriminate.
   exists m. split; [reflexivity|]. intros i Hi.
   assert (Hz : 0 <= Z.of_nat i < 0 + 2 ^ Z.of_nat k).
@@ -109,6 +112,11 @@ Proof.
     rewrite (map_nth (fun p => Nat.min (tz (N.of_nat (S p))) (k - 1))). rewrite seq_nth by assumption.
     cbn [Nat.add]. rewrite Nat2Z.inj_min, tz_tzZ. f_equal. lia.
 Qed.
+
+Lemma check_codebook_sound k : (1 <= k)%nat -> check_codebook k = true ->
+  exists m, fst (fst (run_build_code k)) = Ok (None, m) /\
+            tables_are k m (snd (fst (run_build_code k))) (snd (run_build_code k)) (build_code k).
+Proof. intros Hk H. exact (check_sound_gen k (run_build_code k) Hk H). Qed.
 
 (** C19, code book part: for every k = 1..16 the model's code book is a Gray code book in the
     sense consumed by mzd_make_table, and the translated C code writes exactly that code book. *)
